@@ -27,7 +27,7 @@ RULE = ("Generator of C01 with 60% of runs at maximal eviction pressure "
 PROBES = ['eviction', 'eviction_during_nested_request',
           'importance_override', 'regular_cleanup_fired', 'cleanup_calls',
           'memory_loop_evictions', 'route_freeze_data', 'route_load_data',
-          'route_over_time', 'eviction_inside_over_time']
+          'route_over_time', 'eviction_inside_over_time', 'load_data_again']
 COMPONENTS = cc.COMPONENTS
 ASSUMPTIONS = [
     'bounded termination is observed as: one clean-up makes at most (n+2)^2 '
